@@ -45,7 +45,7 @@ def levels(tier):
         {"name": "marks-insert", "mode": "pages", "n": 0, "prelude": [["we", [[0, 3], [3, 3]]]], "flag_pages": [1, 2, 4, 5], "alphabet": ["page"],
          "defaults": ["never"], "pool": MARKS_POOL, "ks": [1, 2, 3], "insert": True},
         {"name": "tpl-n2", "mode": "pages", "n": 2, "prelude": TPL, "alphabet": ["we", "addprefix", "page"], "defaults": ["never"],
-         "pool": POOL5, "ks": [1, 2, 3], "insert": False},
+         "pool": POOL5, "ks": [1, 2, None], "insert": False},
         {"name": "n3", "mode": "pages", "n": 3, "alphabet": ["page", "we", "addprefix"], "defaults": ["never"],
          "pool": [POOL4[0], POOL4[1], POOL4[3]], "ks": [1, 2], "insert": False},
     ]
@@ -124,7 +124,7 @@ def pages_mode(E, P):
     k = P["ks"][E.choose("k", len(P["ks"]))]
     before = model_pages(E, ref, weid, prefix_lrus, crawled_only)
     total = sum(len(g) for g in before)
-    if total and total % k == 0:
+    if total and k and total % k == 0:
         E.reach("k-exact-multiple")
     # optional insertion of a fresh page under the webentity between two calls
     insert_after = E.choose("insert_after", 3) if P.get("insert") else 0     # 0: never, j: after the j-th call
@@ -146,7 +146,7 @@ def pages_mode(E, P):
         if ans["done"]:
             E.check("token" not in ans or not ans.get("token"), "paginate:done-flag", "final answer carries a token")
             break
-        E.check(len(got) == k, "paginate:page-size", "non-final answer holds %d pages, %d requested" % (len(got), k))
+        E.check(k is not None and len(got) == k, "paginate:page-size", "non-final answer holds %d pages, %r requested" % (len(got), k))
         E.check(bool(ans.get("token")), "paginate:done-flag", "non-final answer has no token")
         token = ans["token"]
         E.reach("resumed")
